@@ -231,6 +231,46 @@ func RunsOnce(p *Prog, call *ssa.Call) []*ssa.Function {
 	return out
 }
 
+// RunsAtMostOnce is RunsOnce without the "on every path" part: the functions the call may execute, synchronously and
+// at most once before it returns - a closure called in place, or a function value (closure, bound method, named function)
+// passed to a repo helper whose corresponding parameter is only ever called, at most once per path (`doCloseSafe(fn)`,
+// which skips fn when the object is closed).
+func RunsAtMostOnce(p *Prog, call *ssa.Call) []*ssa.Function {
+	var out []*ssa.Function
+	g := Callee(&call.Call)
+	if g == nil || call.Call.IsInvoke() {
+		if !call.Call.IsInvoke() {
+			if fv := ResolveFuncValue(p, call.Call.Value); fv != nil {
+				out = append(out, fv.Fn)
+			}
+		}
+		return out
+	}
+	if !p.InRepo(g) || len(g.Blocks) == 0 {
+		return out
+	}
+	for i, a := range call.Call.Args {
+		if i >= len(g.Params) || !onlyCalled(g.Params[i]) {
+			continue
+		}
+		fv := ResolveFuncValue(p, a)
+		if fv == nil {
+			continue
+		}
+		prm := g.Params[i]
+		_, max := PathCount(g, func(ins ssa.Instruction) int {
+			if c, isC := ins.(*ssa.Call); isC && c.Call.Value == ssa.Value(prm) {
+				return 1
+			}
+			return 0
+		}, nil)
+		if max == 1 {
+			out = append(out, fv.Fn)
+		}
+	}
+	return out
+}
+
 // DeepWeight lifts an instruction weight to calls that certainly run closures once: the weight of
 // such a call is its own weight plus the per-execution weight of the closure body, which must be the
 // same on every path of that body (otherwise a large sentinel is returned so that exact-count checks fail).
